@@ -53,6 +53,7 @@ int *refs(int i) {
 // when the object the op is about destructs itself half-way (call_other from a destructed object silently does nothing).
 // script: op | a << 8 | b << 16
 //  1 fail   2 move(a -> b)   3 destruct(a)   4 load a (0|1)   5 clone /c08/a   6 `who` becomes living   9 a calls set_heart_beat(1)
+void shape(int who, int a, int k);
 void perform(int who, int s) {
   int op = s & 0xff, a = (s >> 8) & 0xff, b = (s >> 16) & 0xff;
   object x, y;
@@ -73,9 +74,42 @@ void perform(int who, int s) {
     case 5: add(({ "clone-begin", who, "/c08/a" })); clone_object("/c08/a"); add(({ "clone-end", who, "/c08/a" })); break;
     case 6: x = ob(who); if (x) { x->raw_living(lname(who)); add(({ "living", who, lname(who) })); } break;
     case 7: x = ob(who); if (x) { x->raw_timers(); add(({ "timers", who })); } break;
+    case 10:   // move_object("<name>") by object a; the name (b: 0 = /c08/a, 1 = /c08/b) is resolved - and loaded - inside the efun
+      x = ob(a);
+      if (!x) { add(({ "nop", who, op, a, b })); break; }
+      add(({ "move-s-begin", who, a, b })); x->raw_move(b ? "/c08/b" : "/c08/a"); add(({ "move-s-end", who, a, b }));
+      break;
+    case 11:   // load object a (0|1) through another efun that resolves a name: b = 1 call_other, 2 first_inventory, 3 tell_room
+      f = a ? "/c08/b" : "/c08/a";
+      add(({ "load-begin", who, f }));
+      switch (b) { case 1: f->ping(); break; case 2: first_inventory(f); break; default: tell_room(f, "hello\n"); }
+      add(({ "load-end", who, f }));
+      break;
+    case 12:   // present("thing", a): id() is applied in every item of a's inventory
+      x = ob(a);
+      if (x) { add(({ "present-begin", who, a })); present("thing", x); add(({ "present-end", who, a })); }
+      break;
+    case 13:   // an argument that is evaluated later destructs an object that is already pending on the stack (b = shape)
+      shape(who, a, b);
+      break;
     case 9: x = ob(a); if (x) { x->raw_hb(); add(({ "hb-on", who, a })); } else add(({ "nop", who, op, a, b })); break;
     case 8: x = ob(who); if (x) { add(({ "cmd-begin", who })); a = x->raw_command(); add(({ "cmd-end", who, a })); } break;
   }
+}
+// kill(a): destruct object a in the middle of an argument list; the value is whatever the shape needs next
+mixed kill(int who, int a, mixed ret) { perform(who, 3 | a << 8); return ret; }
+void take(mixed o, mixed dummy) { add(({ "shape-arg", -1, objectp(o) })); }
+void shape(int who, int a, int k) {
+  object o = ob(a), e;          // `o` (a local) is the older reference lower on the stack
+  if (!o) { add(({ "nop", who, 13, a, k })); return; }
+  add(({ "shape-begin", who, a, k }));
+  switch (k) {
+    case 0: o->poke(kill(who, a, 1)); break;                        // the call_other target
+    case 1: tell_object(o, kill(who, a, "boo\n")); break;            // first argument of a two-argument efun
+    case 2: e = environment(o); if (e) present(o, kill(who, a, e)); else o->poke(kill(who, a, 1)); break;
+    default: take(o, kill(who, a, 1)); break;                        // argument of a local call
+  }
+  add(({ "shape-end", who, a, k, objectp(o) }));
 }
 // called from the hooks of the population objects
 void script(int who, int kind, int s) { if (s & 0xff) add(({ "hook-script", who, kind })); perform(who, s & 0xffffff); add(({ "hook-end", who, kind })); }
